@@ -11,7 +11,9 @@ from mc.models import obs, truthful
 
 RULE = ("every pair of tables with <=R rows per side, key columns over a 3-symbol alphabet per kind (int, str, hash-colliding ints, "
         "bool, date; None is a symbol), 1..3 key columns, two table layouts, keys given by name / own column / external vector; "
-        "each join re-run under every PYTHONHASHSEED of the tier and digests compared. "
+        "each join re-run under every PYTHONHASHSEED of the tier and digests compared; further families (mc/joinextra.py): skewed sizes "
+        "(1..3 rows against 7..33), caller-owned key lists (unchanged, reusable), repeated column names, two joins on the same table objects, "
+        "self-joins on composite keys, expect strings built at run time. "
         "non-trivial = some key occurs >=2 times on one side and >=1 time on the other (a many-to-x bucket)")
 ASSUMPTIONS = ["a key column that is all-None on one side and typed on the other is rejected by the documented dtype validation: not judged",
                "names of an empty (0x0) result are not judged: the statement speaks about rows",
@@ -32,6 +34,9 @@ def run_unit(unit):
         return js.run_hist_unit(unit, (METHOD,))
     if unit[0] == "big":
         return js.run_big_unit(unit, (METHOD,))
+    if unit[0] == "extra":
+        from mc import joinextra
+        return joinextra.run_extra_unit(unit, (METHOD,), all_expects=True)
     kind, nkeys, config, forms, nl, maxr = unit
     agg = Agg()
     h = hashlib.sha256()
@@ -99,6 +104,7 @@ def check(ctx):
     units += [("hist", k, f) for k in ("int", "str") for f in ("name", "column")]
     units += [("hist", "int", f, "recycle") for f in ("name", "column")]
     units += [("big", p) for p in range(4)]
+    units += [("extra", f) for f in ("skew", "args", "dupnames", "twice", "self", "expectstr")]
     agg = hashseeds.run(ctx, "props.c09", units)
     agg.notes["bound"] = "see joinspace.plan_units: quick rows<=3 (1 key) / <=2 (2 keys); thorough rows<=4 / <=3 / <=2 (3 keys)"
     agg.notes["exhaustive"] = True
@@ -113,8 +119,14 @@ def coverage_goals(ctx, agg):
     return bad
 
 
+_FAMILY_UNITS = {'skewed sizes': 'skew', 'caller-owned key lists': 'args', 'repeated column name': 'dupnames', 'two joins on the same table objects': 'twice', 'self-join': 'self', 'expect string built at run time': 'expectstr'}
+
+
 def replay(rec):
     case = rec.get("case") or {}
+    if case.get("family") in _FAMILY_UNITS:          # a designated family (mc/joinextra.py): re-run the family, compare signatures
+        from mc import joinextra
+        return set(joinextra.run_extra_unit(("extra", _FAMILY_UNITS[case["family"]]), (METHOD,), all_expects=True).viol)
     if "left_keys" not in case:
         return None
     agg = Agg()
